@@ -1550,6 +1550,11 @@ def _m_set(ctx, args, kwargs):
     from .seqs import SMapSeq
     if isinstance(args[0], SMapSeq):
         return args[0]
+    if type(args[0]).__name__ == "SVSeq":
+        # set(<list of bytes values of symbolic length>): only membership is modelled, and membership in the
+        # set is membership in the list AS IT WAS when the set was built (a snapshot)
+        from .seqs import SVSeq
+        return SVSeq(args[0].term)
     items = ctx.iter_concrete(args[0])
     if not all(ctx.deep_concrete(i) for i in items):
         return SymSet(items)
@@ -1669,7 +1674,12 @@ def _m_urandom(ctx, args, kwargs):
     if is_sym(n):
         ctx.unsupported("os.urandom(symbolic)")
     ctx.eng.externals_used.add("os.urandom (assumed contract: returns ANY n bytes; every call havoc'd)")
-    return ctx.fresh_bytes("urandom", n)
+    r = ctx.fresh_bytes("urandom", n)
+    cc = ctx.cur_contract
+    h = (getattr(cc, "externals_interference", None) or {}).get("os.urandom") if cc is not None else None
+    if h is not None:
+        ctx.call_spec(h, dict(ctx.entry_ns))      # what other threads may have done while this call was running
+    return r
 
 
 def _m_bytearray(ctx, args, kwargs):
